@@ -201,8 +201,13 @@ Definition unpad_go (p : list byte) : res (list byte) :=
 
 (** * type3 issuer.Evaluate up to the signature check *)
 Section Eval3.
+  (** HPKE SetupBaseR + Open under the issuer's private name key: enc -> aad -> ct -> (plaintext, exported secret) *)
   Variable hpke_open : list byte -> list byte -> list byte -> option (list byte * list byte).
-     (* enc -> aad-suffix(request key) -> ct -> (plaintext, exported secret) *)
+  (** the issuer's name key configuration: u8 key id ++ u16 KEM ++ u16 KDF ++ u16 AEAD, and SHA-256 of its encoding *)
+  Variable cfg_prefix : list byte.
+  Variable issuer_key_id : list byte.
+  Definition aad (request_key : list byte) : list byte :=
+    cfg_prefix ++ u16 3 ++ request_key ++ issuer_key_id.
   Variable parse_pk : list byte -> bool.
   Variable sig_verify : list byte -> list byte -> list byte -> bool.
   Variable registered : list byte -> bool.
@@ -212,7 +217,7 @@ Section Eval3.
     if Nat.ltb (length ect) 32 then Err else          (* fix: shorter than the KEM output *)
     do enc <- slice ect 0 32;
     do ct <- slice_from ect 32;
-    match hpke_open enc request_key ct with
+    match hpke_open enc (aad request_key) ct with
     | None => Err
     | Some (pt, secret) =>
       match um_inner {| in_keyid := 0; in_blinded := []; in_padded := [] |} pt with
